@@ -207,6 +207,8 @@ func c01Tree(c *rig.Ctx) {
 		// target as the harness knows it when the request is built
 		te *c01TEntity
 		id uint
+		// hdr: which optional header elements the request carries (c01_header.go), drawn when the request is built
+		hdr int
 	}
 	mkReq := func(q *rig.Peer, kind string, te *c01TEntity, addr []uint, id uint) request {
 		rq := request{kind: kind, te: te, id: id, fn: fns[r.Intn(len(fns))], nodev: r.Intn(4) == 0}
@@ -241,6 +243,7 @@ func c01Tree(c *rig.Ctx) {
 			nd.Device = nil
 			rq.dst = &nd
 		}
+		rq.hdr = c01PickHeaderDress(r)
 		return rq
 	}
 	// want: the response sets the statement prescribes when the target is in state tf (nil = does not exist)
@@ -279,13 +282,14 @@ func c01Tree(c *rig.Ctx) {
 		}
 	}
 	deliver := func(q *rig.Peer, rq request) model.MsgCounterType {
-		return q.Send(rq.cl, rq.src, rq.dst, rq.ack, rq.ref, rq.cmd)
+		return c01SendDressed(w, q, rq.hdr, rq.cl, rq.src, rq.dst, rq.ack, rq.ref, rq.cmd)
 	}
 	// judge: the responses to rq on q's tap against the allowed states (one for a quiescent request, two for one in flight)
 	judge := func(where string, q *rig.Peer, rq request, mc model.MsgCounterType, outs []model.DatagramType, states []*c01TFeat, quiescent bool) {
 		res := rig.Classify(outs, mc)
 		got := res.String()
-		id := fmt.Sprintf("T=%s %s :: %s %s %s -> %s ack=%v from peer %s; history: %s", T, where, rq.kind, rq.cl, rq.fn.Fn, rig.JS(rq.dst), rq.ack, q.Addr, strings.Join(ops, " ; "))
+		id := fmt.Sprintf("T=%s %s :: %s %s %s -> %s ack=%v header[%s] from peer %s; history: %s", T, where, rq.kind, rq.cl, rq.fn.Fn, rig.JS(rq.dst), rq.ack, c01HeaderDresses[rq.hdr], q.Addr, strings.Join(ops, " ; "))
+		c.Count("header:"+c01HeaderDresses[rq.hdr], 1)
 		c.Events(1 + int64(len(res.All)))
 		match, class := false, ""
 		var all []string
